@@ -21,12 +21,17 @@ func main() {
 	replay := flag.String("replay", "", "replay artefact")
 	quiet := flag.Bool("quiet", false, "")
 	list := flag.Bool("list", false, "list registered properties")
+	racepass := flag.String("racepass", "", "internal: free-running race pass for C09|C14 (binary must be built with -race)")
+	iters := flag.Int("iters", 20, "iterations per scenario of the race pass")
 	flag.Parse()
 	if *list {
 		for _, id := range props.IDs() {
 			fmt.Println(id)
 		}
 		return
+	}
+	if *racepass != "" {
+		os.Exit(props.RunRacePass(*racepass, *iters))
 	}
 	if *replay != "" {
 		os.Exit(explore.RunReplay(props.Lookup, *replay, *quiet))
